@@ -1194,3 +1194,4 @@ RULES = [
 
 from . import common as _common_purity
 RULES = RULES + _common_purity.purity_rules("C01")
+RULES = RULES + _common_purity.bundle_rules("C01")
